@@ -2,6 +2,7 @@ package dom
 
 import (
 	"fmt"
+	"strings"
 	"sync"
 	"sync/atomic"
 	"time"
@@ -356,6 +357,13 @@ func steerServeDuringShutdown(workers int, emit func(string)) {
 	}
 	close(stop)
 	time.Sleep(2 * time.Millisecond)
+	// the callback is still running: neither Shutdown nor Serve may have returned
+	select {
+	case err := <-e.done:
+		e.rec.add("h.serve.early", "", 0)
+		e.done <- err
+	default:
+	}
 	close(unblock)
 	<-sdDone
 	// if the retried Serve was accepted it may be serving now: stop it so that nothing leaks
@@ -529,6 +537,11 @@ func steerSameGroup(workers int, emit func(string)) {
 			m2.Handle("$a.$b", res.Group("dg.${b}"), res.Call("do", handler))
 		})
 	})
+	// group tags that refer to the FIRST token behind the mount point
+	e.s.Route("user", func(m *res.Mux) {
+		m.Handle("$id", res.Group("${id}"), res.Call("do", handler))
+		m.Handle("$id.profile", res.Group("${id}"), res.Call("do", handler))
+	})
 	e.conn = recconn.New()
 	served := make(chan struct{})
 	e.s.SetOnServe(func(*res.Service) { close(served) })
@@ -554,6 +567,19 @@ func steerSameGroup(workers int, emit func(string)) {
 		{"call.pool.g.7.a.do", "call.pool.g.7.b.do", "grp.7"},
 		{"call.pool.sub.a.7.x.do", "call.pool.sub.b.7.y.z.do", "mg.7"},
 		{"call.pool.sub.deep.p.9.do", "call.pool.sub.deep.q.9.do", "dg.9"},
+		{"call.pool.user.7.do", "call.pool.user.7.profile.do", "7"},
+	}
+	// resource ids that merely START with the service name match nothing: With reports an error
+	// and runs nothing
+	for _, rid := range []string{"poolXr.1", "pool-r.1", "pools.r.1", "pool2"} {
+		e.id++
+		bad := e.id
+		if err := e.s.With(rid, func(res.Resource) {
+			e.rec.add("h.cbstart", "", bad)
+			e.rec.add("h.cbend", "", bad)
+		}); err == nil {
+			time.Sleep(5 * time.Millisecond)
+		}
 	}
 	for _, pr := range pairs {
 		mu.Lock()
@@ -679,6 +705,130 @@ func steerExpiryDuringShutdown(workers int, emit func(string)) {
 	flushNotes(e.rec, emit)
 }
 
+// steerWithDuringRestart: on the second start of a service a callback is submitted while
+// Serve is still subscribing (the service counts as started from then on) and keeps running;
+// a second callback of the same group submitted once the service listens must wait for it.
+func steerWithDuringRestart(workers int, emit func(string)) {
+	e, err := newSteer(workers)
+	if err != nil {
+		return
+	}
+	defer e.close()
+	emit("reset")
+	e.shutdown()
+	unblock := make(chan struct{})
+	busy := make(chan struct{})
+	var once sync.Once
+	e.conn = recconn.New()
+	e.conn.OnSubscribe = func(string) {
+		once.Do(func() {
+			e.submit("grp.w", "", func(int) { close(busy); <-unblock })
+			select {
+			case <-busy:
+			case <-time.After(2 * time.Second):
+			}
+		})
+	}
+	served := make(chan struct{})
+	e.s.SetOnServe(func(*res.Service) { close(served) })
+	e.done = make(chan error, 1)
+	go func() { e.done <- e.s.Serve(e.conn) }()
+	if waitCh(served, "serve again") != nil {
+		close(unblock)
+		return
+	}
+	_, ret, _ := e.submit("grp.w", "", nil)
+	time.Sleep(15 * time.Millisecond) // were it not serialised behind the first, it would have run by now
+	close(unblock)
+	waitCh(ret, "second callback")
+	time.Sleep(2 * time.Millisecond)
+	e.rec.add("h.quiescent", "", 1)
+	e.shutdown()
+	flushNotes(e.rec, emit)
+}
+
+// traceHoldLogger holds the goroutine that logs an outgoing event ("<-- subject") until it is
+// released: the window between the connection check and the publish in the event path.
+type traceHoldLogger struct {
+	mu      sync.Mutex
+	armed   bool
+	arrived chan struct{}
+	release chan struct{}
+}
+
+func (l *traceHoldLogger) Infof(string, ...interface{})  {}
+func (l *traceHoldLogger) Errorf(string, ...interface{}) {}
+func (l *traceHoldLogger) Tracef(format string, v ...interface{}) {
+	if !strings.HasPrefix(format, "<--") {
+		return
+	}
+	l.mu.Lock()
+	hold := l.armed
+	l.armed = false
+	l.mu.Unlock()
+	if hold {
+		close(l.arrived)
+		<-l.release
+	}
+}
+
+// steerPublishDuringShutdown: an event is being published from a foreign goroutine (it has
+// passed its started/connection checks and is writing its trace entry) while Shutdown runs to
+// completion. The publisher must not panic.
+func steerPublishDuringShutdown(workers int, emit func(string)) {
+	if atomic.LoadInt32(&poolHung) != 0 {
+		return
+	}
+	for variant := 0; variant < 3; variant++ {
+		e := &steerEnv{rec: &recorder{byRep: map[string]int{}, grp: map[int]string{}}, g: &gateCtl{holds: map[int]*hold{}}}
+		setHooks(e.rec.add, e.g.fn)
+		emit("reset")
+		lg := &traceHoldLogger{arrived: make(chan struct{}), release: make(chan struct{})}
+		e.s = res.NewService("pool")
+		e.s.SetLogger(lg)
+		e.s.SetWorkerCount(workers)
+		e.s.Handle("r.$id", res.Call("do", func(r res.CallRequest) { r.OK(nil) }))
+		e.conn = recconn.New()
+		served := make(chan struct{})
+		e.s.SetOnServe(func(*res.Service) { close(served) })
+		e.done = make(chan error, 1)
+		go func() { e.done <- e.s.Serve(e.conn) }()
+		if waitCh(served, "serve") != nil {
+			e.close()
+			return
+		}
+		lg.mu.Lock()
+		lg.armed = true
+		lg.mu.Unlock()
+		pubDone := make(chan struct{})
+		go func() {
+			defer close(pubDone)
+			defer func() {
+				if v := recover(); v != nil {
+					e.rec.add("h.panic", fmt.Sprint(v), 0)
+				}
+			}()
+			switch variant {
+			case 0:
+				e.s.TokenEvent("cid1", map[string]int{"u": 1})
+			case 1:
+				e.s.Reset([]string{"pool.r.1"}, nil)
+			default:
+				e.s.TokenReset("auth.pool.login", "tid1")
+			}
+		}()
+		select {
+		case <-lg.arrived:
+		case <-time.After(2 * time.Second):
+		}
+		e.shutdown()
+		close(lg.release)
+		waitCh(pubDone, "publisher")
+		flushNotes(e.rec, emit)
+		e.close()
+	}
+}
+
 func steerAll(emit func(string)) {
 	for _, w := range []int{1, 2, 3} {
 		steerLateSubmit(w, "slow", emit)
@@ -689,6 +839,8 @@ func steerAll(emit func(string)) {
 		steerRestartStale(w, emit)
 		steerServeDuringShutdown(w, emit)
 		steerSameGroup(w, emit)
+		steerWithDuringRestart(w, emit)
+		steerPublishDuringShutdown(w, emit)
 		steerExpiryDuringShutdown(w, emit)
 		steerShutdownInOnServe(w, emit)
 		steerSubscribeFails(w, 0, emit)
